@@ -83,8 +83,9 @@ def unregister(identifier: int) -> bool:
 
 
 def _update(*args, **kwargs):
+    # A callback may register or unregister callbacks (e.g., itself).
     callback: Callable
-    for callback in _CALLBACKS.values():
+    for callback in list(_CALLBACKS.values()):
         callback(*args, **kwargs)
 
 
